@@ -10,4 +10,8 @@ Extraction "C11_model.ml"
   gm_run gauss_run ps_run gm_augment ps_augment
   gm_mean gm_cov gm_weight gm_mean_el gm_cov_el gauss_mean gauss_cov gauss_weight gauss_mean_el gauss_cov_el
   ps_state ps_state_el gm_consistentb ps_consistentb ps_concat_defined ps_concat_self_defined
-  gm_augment_defined gm_augment_self_defined.
+  gm_augment_defined gm_augment_self_defined
+  slot_get gm_kstep gauss_kstep ps_kstep gm_krun gauss_krun ps_krun gm_eval gauss_eval ps_eval
+  gm_pool0 gauss_pool0 ps_pool0
+  gm_state_mean gm_noise_mean gm_state_cov gm_noise_cov ps_state_part ps_noise_part
+  gm_fill_el gm_fill_blk ps_fill_el ps_fill_blk.
